@@ -19,6 +19,13 @@ func (fe *FnEnc) execCall(st *State, instr ssa.Instruction, common *ssa.CallComm
 }
 
 func (fe *FnEnc) setResult(st *State, res ssa.Value, sig *types.Signature, rets []RV) {
+	// the results of the call at hand, for `after` cut points: ret (first result), ret0, ret1, ...
+	fe.lastRets = nil
+	for i := 0; i < sig.Results().Len() && i < len(rets); i++ {
+		r := rets[i]
+		r.Typ = sig.Results().At(i).Type()
+		fe.lastRets = append(fe.lastRets, r)
+	}
 	if res == nil {
 		return
 	}
@@ -652,6 +659,10 @@ func (fe *FnEnc) cutPointsAt(st *State, key string, ord int, pos token.Pos, afte
 			if !strings.Contains(callText, as.Text) {
 				continue
 			}
+			// "text"#k: only the k-th call site (in source order) whose text contains the text
+			if as.K > 0 && fe.textOrdinal(pos, as.Text) != as.K {
+				continue
+			}
 		} else if as.Callee != key || as.K != ord {
 			continue
 		}
@@ -666,6 +677,20 @@ func (fe *FnEnc) cutPointsAt(st *State, key string, ord int, pos token.Pos, afte
 			}
 		}
 		env := fe.loopEnv(st, l)
+		if after {
+			for i, r := range fe.lastRets {
+				sv := SVal{T: r.T, Typ: r.Typ}
+				if i == 0 {
+					env.names["ret"] = sv
+				}
+				env.names[fmt.Sprintf("ret%d", i)] = sv
+			}
+		}
+		if as.Assume {
+			fe.assumed["assumed in the contract of "+fe.contract.Key+" at \""+as.Text+"\": ["+as.Label+"] "+as.Src] = true
+			fe.assumeClause(st, "assume."+as.Label, as.E, env)
+			continue
+		}
 		o := fe.addOblExpr(st, "assert", as.Label, fe.propsFor(&as.Clause), as.E, env, pos)
 		ord0 := 0
 		if l != nil {
@@ -728,13 +753,21 @@ func (fe *FnEnc) callInvoke(st *State, instr ssa.Instruction, common *ssa.CallCo
 	}
 	if n, ok := derefNamed(iface); ok && n.Obj().Pkg() != nil && purePkgs[n.Obj().Pkg().Path()] || mname == "Error" {
 		fe.assumed["external call assumed not to modify contract-visible memory: "+full] = true
+		shortI := tn + "." + mname
+		fe.callOrd[shortI]++
+		fe.cutPointsAt(st, shortI, fe.callOrd[shortI], pos, false)
 		fe.havocComp(st, "alloc", sInt)
 		fe.setResult(st, res, sig, fe.freshResults(st, sig, mname))
+		fe.cutPointsAt(st, shortI, fe.callOrd[shortI], pos, true)
 		return
 	}
 	fe.havocs[full] = true
+	shortI := tn + "." + mname
+	fe.callOrd[shortI]++
+	fe.cutPointsAt(st, shortI, fe.callOrd[shortI], pos, false)
 	fe.havocAll(st)
 	fe.setResult(st, res, sig, fe.freshResults(st, sig, mname))
+	fe.cutPointsAt(st, shortI, fe.callOrd[shortI], pos, true)
 }
 
 func (fe *FnEnc) applyIfaceContract(st *State, instr ssa.Instruction, cf *ContractFile, fc *FuncContract, recv RV, args []RV, res ssa.Value, sig *types.Signature) {
@@ -798,6 +831,7 @@ func (fe *FnEnc) applyIfaceContract(st *State, instr ssa.Instruction, cf *Contra
 		cl := &fc.Ensures[i]
 		fe.assumeClause(st, fmt.Sprintf("call.%s@%d.%s", fc.Key, fe.callOrd[fc.Key], cl.Label), cl.E, env)
 	}
+	fe.setResult(st, res, sig, rets)
 	fe.cutPointsAt(st, fc.Key, fe.callOrd[fc.Key], pos, true)
 	fe.assumed["interface contract (assumed for callers): "+fc.Key] = true
 	fe.setResult(st, res, sig, rets)
